@@ -341,3 +341,45 @@ Section GaussField.
     intros G hb2 m1 m2 H1 H2 Hs HL. unfold parity_expectation. rewrite H1, H2, Hs, HL. reflexivity.
   Qed.
 End GaussField.
+
+(* ---------------------------------------------------------------------------------- *)
+(* BaseBosonicState.quad_expectation: law of total variance for a weighted sum of Gaussians *)
+Section BosonicQuadProofs.
+  Variable K : Type.
+  Variables (k0 k1 : K) (kadd kmul ksub : K -> K -> K) (kopp : K -> K).
+  Hypothesis Kring : ring_theory k0 k1 kadd kmul ksub kopp eq.
+  Add Ring Kr : Kring.
+  Local Notation "a + b" := (kadd a b).
+  Local Notation "a * b" := (kmul a b).
+  Local Notation "a - b" := (ksub a b).
+
+  Lemma bsum_spread : forall (A : Type) (W Mf Vf : A -> K) (M : K) (l : list A),
+    bsum K k0 kadd (map (fun x => W x * (Vf x + (Mf x - M) * (Mf x - M))) l)
+    = bsum K k0 kadd (map (fun x => W x * Vf x) l) + bsum K k0 kadd (map (fun x => W x * (Mf x * Mf x)) l)
+      - (M + M) * bsum K k0 kadd (map (fun x => W x * Mf x) l) + M * M * bsum K k0 kadd (map W l).
+  Proof.
+    intros A W Mf Vf M l. induction l as [|x l IH]; simpl.
+    - ring.
+    - rewrite IH. ring.
+  Qed.
+
+  (* the variance returned is  sum_i w_i (v_i + (m_i - mean)^2)  when the weights sum to one:
+     it depends on how far apart the component means are *)
+  Lemma bosonic_quad_total_variance : forall c s mode (comps : list (bcomp K)),
+    bsum K k0 kadd (map (bweight K) comps) = k1 ->
+    let mean := fst (bosonic_quad K k0 kadd kmul ksub c s mode comps) in
+    snd (bosonic_quad K k0 kadd kmul ksub c s mode comps)
+    = bsum K k0 kadd (map (fun cp => bweight K cp * (b_vphi K k0 kadd kmul c s mode cp
+          + (b_mphi K k0 kadd kmul c s mode cp - mean) * (b_mphi K k0 kadd kmul c s mode cp - mean))) comps).
+  Proof.
+    intros c s mode comps Hw mean.
+    rewrite (bsum_spread (bcomp K) (bweight K) (b_mphi K k0 kadd kmul c s mode) (b_vphi K k0 kadd kmul c s mode) mean comps).
+    rewrite Hw. unfold mean, bosonic_quad. cbn [fst snd]. ring.
+  Qed.
+
+  (* the mean is the weighted mean of the component means *)
+  Lemma bosonic_quad_mean : forall c s mode (comps : list (bcomp K)),
+    fst (bosonic_quad K k0 kadd kmul ksub c s mode comps)
+    = bsum K k0 kadd (map (fun cp => bweight K cp * b_mphi K k0 kadd kmul c s mode cp) comps).
+  Proof. reflexivity. Qed.
+End BosonicQuadProofs.
